@@ -9,4 +9,6 @@ Definition ks_run := KeySet.ks_run.
 Definition ks_judge := KeySet.ks_judge.
 Definition duo_run := KeySet.duo_run.
 Definition duo_judge := KeySet.duo_judge.
-Extraction "../ocaml/gen/C15/model.ml" ks_run ks_judge duo_run duo_judge.
+Definition rot_run := KeySet.rot_run.
+Definition rot_judge := KeySet.rot_judge.
+Extraction "../ocaml/gen/C15/model.ml" ks_run ks_judge duo_run duo_judge rot_run rot_judge.
